@@ -291,7 +291,7 @@ prop("C07", mons=["C07"],
      + [dict(row("RN", 5, blockedinto=True, c=2, cap2=2, first=3, first1=2, burst=1), ties="all")] + tie_combo_rows(4, {"block", "block1"}, skip=_BLOCKPRE),
      thorough=lambda: bump(c07_rows(5), 1) + with_ties(c07_rows(5), -1)
      + combo_rows(6, include={"block", "block1", "selfloop", "loop"}, skip=_BLOCKPRE)
-     + [dict(row("RN", 6, blockedinto=True, c=2, cap2=2, first=3, first1=2, burst=1), ties="all"), dict(row("RN", 6, blockedinto=True, c=3, cap2=3, first=4, first1=3, burst=1), ties="all")] + tie_combo_rows(5, {"block", "block1", "selfloop", "loop"}, skip=_BLOCKPRE),
+     + [dict(row("RN", 6, blockedinto=True, c=2, cap2=2, first=3, first1=2, burst=1), ties="all")] + tie_combo_rows(5, {"block", "block1", "selfloop", "loop"}, skip=_BLOCKPRE),
      vacuity=["c07_blockages", "c07_unblockings", "c07_blocked_seen"],
      functions=["Node.finish_service", "Node.block_individual", "Node.release", "Node.release_blocked_individual", "Node.update_next_end_service_with_server", "Node.renege"])
 
@@ -438,9 +438,9 @@ C15_KINDS = ["mm1", "cycle", "sequential", "stateful", "prob", "schedule", "slot
 prop("C15", mons=[],
      quick=lambda: [crow("custom:reproducibility", 4, ties="forced", kind=k) for k in C15_KINDS]
      + [crow("custom:reproducibility", 3, ties="forced", kind=k, between=True) for k in ("cycle", "sequential", "prob")],
-     thorough=lambda: [crow("custom:reproducibility", 6, ties="forced", kind=k) for k in C15_KINDS]
-     + [crow("custom:reproducibility", 5, ties="forced", kind=k, between=True) for k in C15_KINDS]
-     + [crow("custom:reproducibility", 4, ties="all", kind=k) for k in C15_KINDS],
+     thorough=lambda: [crow("custom:reproducibility", 5, ties="forced", kind=k) for k in C15_KINDS]
+     + [crow("custom:reproducibility", 4, ties="forced", kind=k, between=True) for k in C15_KINDS]
+     + [crow("custom:reproducibility", 3, ties="all", kind=k) for k in C15_KINDS],
      vacuity=["c15_triples", "c15_records_compared"],
      functions=["ciw.seed", "Simulation.__init__ (find_*_dists deep copies, find_and_initialise_routers)", "routing.Cycle", "routing.ProcessBased", "dists.Sequential", "Schedule.initialise", "Slotted.initialise"],
      assumptions=["the seeded generator is an arbitrary but fixed stream: draw i of the process after seed() made by source S is the symbol S@i", "numpy-backed distributions and the Mersenne Twister itself are not exercised"])
@@ -519,10 +519,10 @@ def c19_rows(K):
 
 prop("C19", mons=["C19"],
      quick=lambda: c19_rows(5) + [crow("custom:ps_vs_fifo", 6, ties="forced", burst=2), crow("custom:ps_vs_fifo", 8, ties="forced", burst=3), crow("custom:ps_vs_fifo", 8, ties="forced", burst=1, first=3),
-                               crow("custom:ps_vs_fifo", 4, ties="forced"), crow("custom:ps_vs_fifo", 6, ties="all", burst=2)] + with_ties([row("PS", 5), row("PS", 5, capacity=2, threshold=2, first=3)])
+                               crow("custom:ps_vs_fifo", 4, ties="forced")] + with_ties([row("PS", 5), row("PS", 5, capacity=2, threshold=2, first=3)])
      + combo_rows(5, include={"ps"}),
      thorough=lambda: bump(c19_rows(5), 2) + [crow("custom:ps_vs_fifo", 6, ties="forced", burst=2), crow("custom:ps_vs_fifo", 8, ties="forced", burst=3), crow("custom:ps_vs_fifo", 10, ties="forced", burst=4), crow("custom:ps_vs_fifo", 10, ties="forced", burst=2, first=2),
-                                      crow("custom:ps_vs_fifo", 8, ties="forced", burst=1, first=4), crow("custom:ps_vs_fifo", 5, ties="forced"), crow("custom:ps_vs_fifo", 8, ties="all", burst=3), crow("custom:ps_vs_fifo", 8, ties="forced", burst=3, threshold=2)] + with_ties(c19_rows(5), 0)
+                                      crow("custom:ps_vs_fifo", 8, ties="forced", burst=1, first=4), crow("custom:ps_vs_fifo", 5, ties="forced")] + with_ties(c19_rows(5), 0)
      + combo_rows(7, include={"ps"}),
      vacuity=["c19_departures", "c19_slowed", "c19_waiting_for_capacity", "c19_rel_pairs", "c19_rel_empties"],
      functions=["PSNode.update_all_service_end_dates", "PSNode.begin_service_if_possible_accept", "PSNode.begin_service_if_possible_release", "Node.release", "Node.update_next_end_service_without_server"])
